@@ -179,3 +179,61 @@ def perfect_matching(cands):
         return False
 
     return all(try_assign(i, set()) for i in range(n))
+
+
+# ------------------------------------------------------------------------------------------------- tensor layouts
+def relayout_image(x, layout):
+    """same values / shape / dtype as x (B,C,H,W) in another memory layout (what an upstream pipeline stage may hand over)"""
+    B, C, H, W = x.shape
+    if layout == "nhwc":  # NHWC storage viewed as NCHW
+        return x.permute(0, 2, 3, 1).contiguous().permute(0, 3, 1, 2)
+    if layout == "channels_last":
+        return x.contiguous(memory_format=torch.channels_last)
+    if layout == "strided_hw":  # every second row / a left part of the columns of a larger tensor
+        big = torch.full((B, C, 2 * H, W + 3), -7.0, dtype=x.dtype)
+        big[:, :, ::2, :W] = x
+        return big[:, :, ::2, :W]
+    if layout == "strided_batch":  # every second sample of a larger batch
+        big = torch.full((2 * B, C, H, W), -7.0, dtype=x.dtype)
+        big[::2] = x
+        return big[::2]
+    if layout == "whcn":  # fully reversed storage order
+        return x.permute(3, 2, 1, 0).contiguous().permute(3, 2, 1, 0)
+    return x
+
+
+def relayout_label(y, layout):
+    if not torch.is_tensor(y) or layout == "contiguous":
+        return y
+    if layout == "expanded" and y.dtype != torch.float32 and len(y) > 0 and bool((y == y[0:1]).all()):
+        # only where it is legitimate: all samples carry the same label and the collator converts (copies) the dtype;
+        # a float32 label is mixed in place, which torch refuses for expanded tensors on the pristine tree as well
+        return y[0:1].expand(*y.shape)
+    if y.ndim == 2 and layout == "transposed":
+        return y.t().contiguous().t()
+    big = torch.zeros((2 * y.shape[0],) + tuple(y.shape[1:]), dtype=y.dtype)  # strided
+    big[::2] = y
+    return big[::2]
+
+
+def make_layout_collator(image_layout, label_layout):
+    """harness-side KDSingleCollator for a KDComposeCollator pipeline: default-collates, then hands the image / label
+    item (first occurrence) on in another memory layout; values are untouched"""
+    from kappadata.collators.base.kd_single_collator import KDSingleCollator
+
+    class LayoutCollator(KDSingleCollator):
+        @property
+        def default_collate_mode(self):
+            return "before"
+
+        def collate(self, batch, dataset_mode, ctx=None):
+            items = dataset_mode.split(" ")
+            if not isinstance(batch, (list, tuple)):
+                return relayout_image(batch, image_layout) if items == ["x"] else batch
+            batch = list(batch)
+            batch[items.index("x")] = relayout_image(batch[items.index("x")], image_layout)
+            if "class" in items:
+                batch[items.index("class")] = relayout_label(batch[items.index("class")], label_layout)
+            return tuple(batch)
+
+    return LayoutCollator()
